@@ -26,7 +26,7 @@ fn argv_tokens(full: bool) -> Vec<&'static str> {
         "-", "--", "-a", "-ab", "-b", "-oX", "-o", "-ao", "--long", "--lo", "--l", "--long=X", "--opt", "--opt=X", "X",
     ];
     if full {
-        t.extend(["-ba", "-aoX", "-x", "--op=", "--lot", "--b", "-p", "-pX", "--o", "--bar=X", "--opt=X=Y"]);
+        t.extend(["-ba", "-aoX", "-x", "--op=", "--lot", "--b", "-p", "-pX", "--o", "--bar=X", "--opt=X=Y", "--long=", "--opt="]);
     }
     t
 }
@@ -166,4 +166,4 @@ pub fn run(ctx: &Ctx) {
     ctx.assume("models/optparse.rs: XBD 12.2 + documented extensions; an empty long-option name (`--=X`) is not generated");
 }
 
-pub const RULE: &str = "Part A: every subset of at most 3 options from a pool of 7 (flags, option with argument, long-only options sharing prefixes, short+long pairs) x both modes (portable / with extensions) x every argument vector up to length 4 (quick) / 5 over the token alphabet {-, --, -a, -ab, -b, -oX, -o, -ao, --long, --lo, --l, --long=X, --opt, --opt=X, X + 11 more: -ba -aoX -x --op= --lot --b -p -pX --o --bar=X --opt=X=Y}: yash_builtin::common::syntax::parse_arguments vs the reference parser (options in order with arguments and spelling, operands, error class). evaluations = (spec set, mode, argv) triples; distinct_nontrivial = distinct triples whose reference parse has >=2 options, an option-argument, or options and operands";
+pub const RULE: &str = "Part A: every subset of at most 3 options from a pool of 7 (flags, option with argument, long-only options sharing prefixes, short+long pairs) x both modes (portable / with extensions) x every argument vector up to length 4 (quick) / 5 over the token alphabet {-, --, -a, -ab, -b, -oX, -o, -ao, --long, --lo, --l, --long=X, --opt, --opt=X, X + 11 more: -ba -aoX -x --op= --lot --b -p -pX --o --bar=X --opt=X=Y --long= --opt=}: yash_builtin::common::syntax::parse_arguments vs the reference parser (options in order with arguments and spelling, operands, error class). evaluations = (spec set, mode, argv) triples; distinct_nontrivial = distinct triples whose reference parse has >=2 options, an option-argument, or options and operands";
